@@ -104,7 +104,7 @@ func TestVerifC09(t *testing.T) {
 	r.Rule("case = (asset, representation, availabilityTimeOffset, chunkdur, request instant {at advertised availability, mid-way, segment end, far later}, live index); " +
 		"class = (asset, rep kind, ato as fraction of the segment, instant kind, number of chunks, paced/unpaced); counted when the chunked body was compared with the whole segment and every chunk's span and write time were judged")
 	r.Assume("never-early is one-sided: t_request + elapsed(handler entry .. Write returned) + 2 ms >= AST + chunk end; both clock errors make the check more lenient")
-	r.Assume("lateness is not judged (latency claim, out of reach); DRM + chunked is judged under C10")
+	r.Assume("lateness is not judged (latency claim, out of reach); with DRM the chunked body must decrypt (CPIX key) to the samples of the clear whole segment")
 	defer func() { r.Done(); t.Log(r.Summary()) }()
 	worlds := vfWorlds(t, false)
 	type job struct {
@@ -434,7 +434,74 @@ func TestVerifC09(t *testing.T) {
 	r.Add("paced_requests", int64(len(paced)))
 	r.Add("unpaced_requests", int64(len(unpaced)))
 	_ = strings.Join
+	// with DRM: the chunked, encrypted body decrypts to the samples of the clear whole segment (every chunk carries what is needed)
+	if r.Begin(100_000, "chunked with DRM") {
+		vfC09DRM(t, r)
+	}
 	if r.NViolations() > 0 {
 		t.Fail()
+	}
+}
+
+func vfC09DRM(t *testing.T, r *rep.R) {
+	ds := vfNewServer(t, ServerConfig{VodRoot: vfBundledVod(), DrmCfgFile: vfRepoRoot() + "/pkg/drm/testdata/drm_config_test.json"})
+	cpix, err := ora.ReadCPIX(vfRepoRoot() + "/pkg/drm/testdata/cpix_1key_cbcs_test.xml")
+	if err != nil {
+		r.Inconclusive("cpix-file-not-readable")
+		return
+	}
+	for _, asset := range []string{"testpic_2s", "testpic_8s"}[:r.Pick(1, 2)] {
+		a, err := ora.LoadAsset(vfBundledVod(), asset, "Manifest.mpd", false)
+		if err != nil {
+			t.Fatal(err)
+		}
+		segMS := a.LoopMS / int64(a.Ref.N())
+		for _, rid := range a.RepIDs {
+			rp := a.Reps[rid]
+			if !(strings.HasPrefix(rp.Codecs, "avc") || strings.HasPrefix(rp.Codecs, "mp4a.40")) {
+				continue
+			}
+			ck := cpix.KeyFor(rp.ContentType)
+			if ck == nil {
+				continue
+			}
+			for _, n := range []int64{3, int64(a.Ref.N()) + 1, 1000*int64(a.Ref.N()) + 2} {
+				for _, atoMS := range []int64{segMS / 2, segMS * 3 / 4} {
+					drm := "drm_EZDRM-1-key-cbcs-test"
+					cfg := fmt.Sprintf("%s/ato_%d.%03d/chunkdur_0.5", drm, atoMS/1000, atoMS%1000)
+					tm := a.AvailMS(a.Ref, n, 0, 0) + 60 // after the segment end: no pacing
+					ir := vfGet(ds, vfURL(drm, asset, rp.InitPath, tm))
+					cr := vfGet(ds, vfURL(cfg, asset, vfMediaURL(rp, uint64(n)), tm))
+					wr := vfGet(ds, vfURL("", asset, vfMediaURL(rp, uint64(n)), tm))
+					r.Eval(3)
+					sigp := rp.ContentType + ":drm:"
+					det := func(what string) map[string]any {
+						return map[string]any{"chunked_url": vfURL(cfg, asset, vfMediaURL(rp, uint64(n)), tm), "what": what}
+					}
+					if ir.Code != 200 || cr.Code != 200 || wr.Code != 200 {
+						r.Violation(sigp+fmt.Sprintf("status-%d-%d-%d", ir.Code, cr.Code, wr.Code), det("init / chunked / clear whole segment"))
+						continue
+					}
+					dec, err := ora.DecryptSegment(ir.Body, cr.Body, ck.Key)
+					if err != nil {
+						r.Violation(sigp+"chunked-body-does-not-decrypt", det(err.Error()))
+						continue
+					}
+					ws, err := ora.ParseSegment(wr.Body, rp.Trex)
+					if err != nil {
+						continue
+					}
+					same := len(dec.Samples) == len(ws.Samples) && dec.Tfdt == ws.Tfdt
+					for i := 0; same && i < len(ws.Samples); i++ {
+						same = dec.Samples[i] == ws.Samples[i]
+					}
+					if !same {
+						r.Violation(sigp+"decrypted-chunked-body-differs-from-clear-whole-segment", det(fmt.Sprintf("%d vs %d samples", len(dec.Samples), len(ws.Samples))))
+						continue
+					}
+					r.Class(fmt.Sprintf("%s|%s|drm-chunked|chunks=%d", asset, rp.ContentType, len(dec.Frags)))
+				}
+			}
+		}
 	}
 }
